@@ -283,6 +283,13 @@ def fix_ptm(molecule):
 
     known_ptms = molecule.force_field.modifications
 
+    def _residue_name(resid):
+        # Atoms of the residue may have been removed as unknown PTM atoms.
+        for idx in resid_to_idxs[resid]:
+            if idx not in removed:
+                return '{resname}{resid}'.format(**molecule.nodes[idx])
+        return str(resid)
+
     for resids, res_ptms in itertools.groupby(ptm_atoms, key_func):
         # How to solve this graph covering problem
         # Filter known_ptms, such that
@@ -315,8 +322,7 @@ def fix_ptm(molecule):
         except KeyError:
             LOGGER.warning('Could not identify the modifications for'
                            ' residues {}, involving atoms {}',
-                           ['{resname}{resid}'.format(**molecule.nodes[resid_to_idxs[resid][0]])
-                            for resid in sorted(set(resids))],
+                           [_residue_name(resid) for resid in sorted(set(resids))],
                            ['{atomid}-{atomname}'.format(**molecule.nodes[idx])
                             for idxs in res_ptms for idx in idxs[0]],
                            type='unknown-input')
@@ -330,8 +336,7 @@ def fix_ptm(molecule):
         # residue(s); and a single PTM can span multiple residues.
         LOGGER.info("Identified the modifications {} on residues {}",
                     [out[0].graph['name'] for out in identified],
-                    ['{resname}{resid}'.format(**molecule.nodes[resid_to_idxs[resid][0]])
-                     for resid in resids])
+                    [_residue_name(resid) for resid in resids])
         for ptm, match in identified:
             ptm.match = match
             for mol_idx, ptm_idx in match.items():
@@ -361,7 +366,7 @@ def fix_ptm(molecule):
                                          val, format_atom_string(mol_node),
                                          type='change-atom')
                             mol_node[attr_name] = val
-            for n_idx in n_idxs:
+            for n_idx in n_idxs - removed:
                 node = molecule.nodes[n_idx]
                 if not ('modification' in node and ptm in node.get('modifications', [])):
                     # These nodes already had the modification annotated.
